@@ -30,7 +30,7 @@ PROPS["C12"] = dict(
          "that the client's socket takes the last descriptor and accept() fails with EMFILE 1..3 times (the client is starved for 250 ms, the "
          "'too many open files' event is captured), then the descriptors are released: the client must be served and max_conns fresh gated clients "
          "must all be inside simultaneously. Non-trivial = at least one take that had to fail / at least one connection ended abnormally / accept failed.",
-    nontrivial=lambda tag, args, obs: ("O" in obs.split(" ")[0]) if tag == "c12t" else (True if tag in ("c12e", "c12i") else bool(re.search(r"[epdmauvwxEPDM]", args[1]))),
+    nontrivial=lambda tag, args, obs: ("O" in obs.split(" ")[0]) if tag == "c12t" else (True if tag in ("c12e", "c12i") else bool(re.search(r"[epdmauvwxyEPDM]", args[1]))),
     klass=lambda tag, args, obs: ("c12t:size=%s:len=%d" % (args[0], len(args[1]))) if tag == "c12t" else ("c12e:max_conns=%s" % args[0] if tag == "c12e" else "c12i:idle-clients=" + args[0] if tag == "c12i" else "c12:max_conns=%s:clients=%d" % (args[0], len(args[1]))),
     explanation="Model/Server.lean: TokenSet as (size, units in the channel, live tokens); the accept loop as a four-state machine, connection tasks as "
                 "a count, every way a connection can end as one event (its token is dropped). Theorems over all event sequences / API sequences: "
@@ -464,8 +464,8 @@ PROPS["C09"] = dict(
 )
 
 PROPS["C10"] = dict(
-    suites=["c10", "c10r"],
-    shards={"c10": 4, "c10r": 1},
+    suites=["c10", "c10r", "c10s"],
+    shards={"c10": 4, "c10r": 1, "c10s": 2},
     lean_modules=["ServlinVerif.Props.C10"],
     audit="Audit/C10.lean",
     rule="full server over loopback with a cache directory: uploads of known / unknown length / Expect, lengths {200, 8192, 70000} (thorough: "
@@ -473,8 +473,8 @@ PROPS["C10"] = dict(
          "completely (single write, fragments, 3 concurrent connections), with the cache dir removed, and cut by client disconnect at offsets "
          "{0, 1, mid-buffer, buffer boundary, len-1, len, len+1}; the cache dir is listed after each scenario. Non-trivial = an upload file "
          "was created (second handler call or truncated upload).",
-    nontrivial=lambda tag, args, obs: True,
-    klass=lambda tag, args, obs: "c10r:revoked-while-handler-owns-upload" if tag == "c13" else "c10:%s:cache=%s" % (re.sub(r"[0-9]+", "N", args[2]), args[1]),
+    nontrivial=lambda tag, args, obs: tag == "c10s" or True,
+    klass=lambda tag, args, obs: "c10s:stalled=" + args[0] if tag == "c10s" else "c10r:revoked-while-handler-owns-upload" if tag == "c13" else "c10:%s:cache=%s" % (re.sub(r"[0-9]+", "N", args[2]), args[1]),
     explanation="Upload files are part of the connection model (created ids, live set); readBodyToFile_files: an upload either hands over exactly "
                 "one new file owned by the returned body or leaves none - for every input, limit and disk fault; C10_exchange_no_leak and "
                 "C10_no_leak: after every exchange, and at the end of handle_http_conn, the live set equals the initial one, for every handler "
@@ -488,7 +488,7 @@ PROPS["C10"] = dict(
 )
 
 PROPS["C11"] = dict(
-    suites=["c11", "c11c", "c07", "c04e", "c11w"],
+    suites=["c11", "c11c", "c07", "c04e", "c11w", "c13w"],
     lean_modules=["ServlinVerif.Props.C11", "ServlinVerif.Props.C07", "ServlinVerif.Props.C11Format"],
     audit="Audit/C11.lean",
     rule="c11c: the checked constructor Event::custom on 19 hand-picked types x 3 data and on every type of up to 4 (5) symbols over {a, SP, CR, LF, ':', e-acute} "
@@ -500,7 +500,7 @@ PROPS["C11"] = dict(
          "random programs of 3..14 steps; multi-threaded stress with 1..4 sender threads x {10, 200} events. Non-trivial = at least one event "
          "was accepted.",
     nontrivial=lambda tag, args, obs: "wire= " not in obs,
-    klass=lambda tag, args, obs: (tag + ":" + obs[:3]) if tag == "c11c" else ("c07:chunk-encoder" if tag == "c07" else "c04e:event-stream-in-sequence:" + args[2] if tag == "c04" else "c11w:event-stream-response" if tag == "c08" else tag + ":done=" + obs.rsplit("done=", 1)[-1]),
+    klass=lambda tag, args, obs: (tag + ":" + obs[:3]) if tag == "c11c" else ("c07:chunk-encoder" if tag == "c07" else "c04e:event-stream-in-sequence:" + args[2] if tag == "c04" else "c11w:event-stream-response" if tag == "c08" else "c13w:stream-in-flight-at-revocation" if tag == "c13" else tag + ":done=" + obs.rsplit("done=", 1)[-1]),
     explanation="Channel + encoder modelled as a transition system over {send, clone, disconnect, drop, poll}; C11_invariant (induction over "
                 "arbitrary op sequences): delivered ++ queued = accepted in order, queue <= 50, wire = one chunk per delivered event (+ "
                 "terminator iff ended), ended only when every sender is gone; C11_never_blocks; C11_ends_when_all_gone. Format: the "
